@@ -209,6 +209,15 @@ def gen_text(rng, delim, tame=False, allow_tab=True):
     return s
 
 
+def inner_blanks(rng, t):
+    """XML text with runs of blanks / a tab INSIDE the value (they are part of the value; only the surrounding blanks
+    are not)"""
+    if len(t) >= 2 and rng.random() < 0.4:
+        k = rng.randint(1, len(t) - 1)
+        t = t[:k] + rng.choice(["  ", "   ", " \t ", "\t", "  \t  "]) + t[k:]
+    return t
+
+
 def gen_table(rng, delim=None, tame=False, max_cols=6, max_rows=14, allow_void=True, for_xml=False):
     """a well-formed rectangular table (the domain the property quantifies over)"""
     delim = delim if delim is not None else rng.choice(DELIMS)
@@ -228,6 +237,8 @@ def gen_table(rng, delim=None, tame=False, max_cols=6, max_rows=14, allow_void=T
     if all(kinds[c] == "void" for c in ins):
         kinds[ins[0]] = "num"
     labels = [gen_text(rng, delim, tame or for_xml, allow_tab=not for_xml).strip(WS) for _ in range(rng.randint(2, 4))]
+    if for_xml:
+        labels = [inner_blanks(rng, l) for l in labels]
     labels = list(dict.fromkeys(labels))
     while len(labels) < 2:
         labels.append(labels[0] + "k")
@@ -250,7 +261,9 @@ def gen_table(rng, delim=None, tame=False, max_cols=6, max_rows=14, allow_void=T
                     row.append("")
                 else:
                     t = gen_text(rng, delim, tame or for_xml, allow_tab=not for_xml)
-                    row.append(t.strip(WS) if for_xml else t)
+                    if for_xml:
+                        t = inner_blanks(rng, t.strip(WS))
+                    row.append(t)
         if not any(c.strip(WS) for c in row):
             # a row whose cells are all blank is a blank line for the reader when the delimiter is a tab (and is
             # not a data row in any useful sense): keep one non-blank cell per row (hypothesis of
@@ -334,29 +347,36 @@ def judge_frame(t, got, rows=None, what="csv"):
 
 
 def judge_vars(t, got, rows=None):
-    """variable_i_reads_column_i: the variable generated for input column c,
-    run on example r, returns the value of that cell"""
+    """variable_i_reads_column_i: setup_terminals generates exactly one variable per input column that has a domain, in
+    column order (names need not be distinct, so variables are identified by POSITION, as in the Coq theorem); the
+    k-th variable carries the name of the k-th such column (header name, or X<i> when it is empty) and, run on
+    example r, returns the value of that cell"""
     bad = []
     exp = expected_frame(t, rows)
     if got["kind"] != "OK" or "vars" not in got:
         return [("prob:no-terminals", "terminals were not set up: %s" % (got.get("term") or got.get("exn") or got["kind"]))]
-    out = t["out"]
     names = {}
     for pos, c in enumerate(exp["ins"]):
         col = pos + 1
         nm = exp["names"][col] if exp["names"] is not None else b""
         names[c] = nm if nm else b"X%d" % col
-    byname = {v[0]: k for k, v in enumerate(got["vars"])}
+    if len(got["vars"]) != len(exp["live"]):
+        return [("prob:variable-binding", "%d variables %s for %d input columns with a domain (names %s)"
+                 % (len(got["vars"]), [v[0] for v in got["vars"]], len(exp["live"]), [names[c] for c in exp["live"]]))]
+    for k, c in enumerate(exp["live"]):
+        if got["vars"][k][0] != names[c]:
+            return [("prob:variable-binding", "variable %d is named %r, input column %d is named %r"
+                     % (k, got["vars"][k][0], c, names[c]))]
+        if got["vars"][k][1] != k:
+            return [("prob:variable-binding", "variable %r of input column %d has index %d, its value is input %d"
+                     % (names[c], c, got["vars"][k][1], k))]
     for r, runrow in enumerate(got.get("run", [])):
         for k, c in enumerate(exp["live"]):
-            if names[c] not in byname:
-                bad.append(("prob:variable-binding", "no variable named %r for input column %d" % (names[c], c)))
-                return bad
-            v = runrow[byname[names[c]]]
+            v = runrow[k]
             if v != exp["ex"][r][1][k]:
                 bad.append(("prob:variable-binding",
-                            "variable %r (column %d) run on example %d returns %s; the cell is %s"
-                            % (names[c], c, r, v, exp["ex"][r][1][k])))
+                            "variable %d (%r, column %d) run on example %d returns %s; the cell is %s"
+                            % (k, names[c], c, r, v, exp["ex"][r][1][k])))
                 return bad
     return bad
 
